@@ -59,4 +59,10 @@ def lru_to_url(lru):
     query = stems_index.get("q", "")
     fragment = stems_index.get("f", "")
 
+    # NOTE: urlunsplit forgets an empty netloc when the path starts with '//'
+    if not netloc and path.startswith("//"):
+        url = urlunsplit(("", "", path, query, fragment))
+
+        return (scheme + ":" if scheme else "") + "//" + url
+
     return urlunsplit((scheme, netloc, path, query, fragment))
